@@ -42,12 +42,13 @@ def firstCount (s : St α) : St α :=
                               | some c => s.addVote A c (bvote A b)
                               | none => s) s
 
-/-- breakTie for the rules that break ties by tie order only -/
+/-- breakTie for the rules that break ties by tie order only.
+    The subject list of a `tie` action is the chosen candidate followed by the tied candidates. -/
 def breakTie (s : St α) (tied : List (Cand α)) (verb : String) : St α × Option (Cand α) :=
   match tied with
   | [] => (s.setCrash "IndexError", none)
   | [c] => (s, some c)
-  | _ => ((s.logAct A "tie" verb (tied.map (·.cid))), (byTieOrder tied).head?)
+  | _ => ((s.logAct A "tie" verb (((byTieOrder tied).head?.map (·.cid)).toList ++ tied.map (·.cid))), (byTieOrder tied).head?)
 
 def hasQuotaGE (s : St α) (c : Cand α) : Bool := A.ge c.vote s.quota
 def hasQuotaX (s : St α) (c : Cand α) : Bool := if A.exact then A.gt c.vote s.quota else A.ge c.vote s.quota
@@ -158,7 +159,7 @@ def wigmDefeatStep (o : WigmOpts) (s : St α) : St α :=
   | none => s
   | some lv =>
     let lows := s.hopeful.filter (fun c => A.eq c.vote lv)
-    if A.eq lv A.zero && o.batchZero then
+    if A.eq lv A.zero && o.batchZero && decide ((lows.length : Int) ≤ (s.hopeful.length : Int) - s.seatsLeft) then
       let s1 := lows.foldl (fun acc c => acc.defeat A c.cid "Defeat batch(zero)") s
       lows.foldl (fun acc c => transferDefeated A acc [c.cid] "Transfer defeated") s1
     else
@@ -228,8 +229,9 @@ def scotBreakTie (s : St α) (tied : List (Cand α)) (lowest : Bool) (reason : S
     let cids := tied.map (·.cid)
     -- for n in range(E.round-1, -1, -1): CN = E.rounds[n]
     match ((s.rounds.take s.round).reverse).findSome? (scotPrior A cids lowest) with
-    | some cn0 => (s.logAct A "tie" ("Break tie by prior stage (" ++ reason ++ ")") cids, tied.find? (·.cid == cn0.cid))
-    | none => (s.logAct A "tie" ("Break tie by lot (" ++ reason ++ ")") cids, (byTieOrder tied).head?)
+    | some cn0 => (s.logAct A "tie" ("Break tie by prior stage (" ++ reason ++ ")") (cn0.cid :: cids), tied.find? (·.cid == cn0.cid))
+    | none => (s.logAct A "tie" ("Break tie by lot (" ++ reason ++ ")") (((byTieOrder tied).head?.map (·.cid)).toList ++ cids),
+               (byTieOrder tied).head?)
 
 def candSurplus (s : St α) (c : Cand α) : α :=
   if A.lt (A.sub c.vote s.quota) A.zero then A.zero else A.sub c.vote s.quota
@@ -393,7 +395,8 @@ def mplsBody (s : St α) : St α × Flow :=
                                           | some c => s2.isUndeclared c
                                           | none => false)).map (bvote A))
     else A.zero   -- Python uses int 0 here; E.surplus + 0
-  let defeatC := undecl ++ mplsCertainLosers A s2 (A.add s2.surplus undeclVotes)
+  let defeatC := undecl ++ (mplsCertainLosers A s2 (A.add s2.surplus undeclVotes)).filter
+                              (fun c => !undecl.any (fun u => u.cid == c.cid))
   if !defeatC.isEmpty then
     let s3 := defeatC.foldl (fun acc c =>
                 acc.defeat A c.cid (if c.undeclared then "Defeat undeclared write-in" else "Defeat certain loser")) s2
